@@ -10,7 +10,7 @@ from .common import FnCtx, SCtx, sctx
 from .c18 import handler_reraises
 
 PROP = "C09"
-FLOORS = {"C09.R1": 3, "C09.R2": 5, "C09.R3": 3, "C09.R4": 5, "C09.R5": 6, "C09.R6": 3}
+FLOORS = {"C09.R1": 3, "C09.R2": 5, "C09.R3": 3, "C09.R4": 5, "C09.R5": 6, "C09.R6": 3, "C09.R7": 2, "C09.R8": 4}
 META = {
     "explanation": "Control skeleton of Optimize.solve on its CFG (helpers inlined): every normally returning path passes, after the "
                    "last call that can move knobs (self.step), a branch on which `not assert_within_tol or within tolerance` is known; "
@@ -279,13 +279,24 @@ def check_reload(col, rule="C09.R5"):
 
 
 def check(col: Collector):
-    _solve(col)
-    _flag(col)
-    check_reload(col)
+    with col.rule():
+        _solve(col)
+    with col.rule():
+        _flag(col)
+    with col.rule():
+        check_reload(col)
     # the knobs left in the containers are the point whose evaluation set the within-tolerance flag
     from . import c15
     from .common import shared, construct_tag
-    shared(col, "C09.R6", [c15._row_consistency],
-           select=lambda o: construct_tag(o) in ("knobs-set-from-solver-x-after-solver-step", "evaluates-current-knobs",
-                                                 "evaluate-before-reading-results"),
-           why="solve() returns on the strength of the flag of the last evaluation; the knobs must be that very point")
+    with col.rule():
+        shared(col, "C09.R6", [c15._row_consistency],
+               select=lambda o: construct_tag(o) in ("knobs-set-from-solver-x-after-solver-step", "evaluates-current-knobs",
+                                                     "evaluate-before-reading-results"),
+               why="solve() returns on the strength of the flag of the last evaluation; the knobs must be that very point")
+    with col.rule():
+        shared(col, "C09.R8", [c15._mask_columns], select=lambda o: "add_point_to_log" in o.construct,
+               why="the flags restored after a failed solve() are those add_point_to_log wrote as iteration 0")
+    from . import c10
+    with col.rule():
+        shared(col, "C09.R7", [c10._masks], select=lambda o: construct_tag(o) == "from-active-flags",
+               why="'every active target within tolerance' is judged with mask_output: it must be computed from the current active flags")
